@@ -998,6 +998,7 @@ def selftest():
     evs += list(gens.gen_rule_zone_session(rng, gens.corpus_rule(0), do_find=True, nprobe=6))
     evs += list(gens.gen_tzstrings(rng, 4)) + list(gens.gen_resolve(rng, 3))
     evs += list(gens.gen_corpus_decode(rng, ["Europe/Paris"]))
+    os.makedirs(C.OUT, exist_ok=True)
     inp, outp = os.path.join(C.OUT, "selftest.in"), os.path.join(C.OUT, "selftest.ndjson")
     open(inp, "w").write("\n".join(json.dumps(e) for e in evs) + "\n")
     C.run_harness(b, inp, outp)
